@@ -159,13 +159,22 @@ class AcgtOracles(Oracles):
             r = args[0]
             if not isinstance(r, Ref):
                 raise Undecided("convert_bases argument")
-            n = r.len if r.len is not None else None
+            v = it.read(r.cell, r.path)
+            n = r.len if r.len is not None else ((len(v.elems) - r.off) if isinstance(v, (Arr, VecV)) else None)
             if n != 32:
                 raise Diverge("convert_bases on a chunk of %s bytes" % n)
-            v = it.read(r.cell, r.path)
-            ids = [self.idx_of(v.elems[r.off + j]) for j in range(32)]
-            for i in ids:
-                self.paths.append(("vector", i))
+            ids = []
+            for j in range(32):
+                e = v.elems[r.off + j]
+                i = self.idx_of(e)
+                if i is None:
+                    # not one of the input bytes: a constant the code put there (padding of a staging buffer)
+                    if not (isinstance(e, Int) and e.is_conc()):
+                        raise Undecided("convert_bases of a lane that is neither an input byte nor a constant")
+                    i = ("const", {65: 0, 97: 0, 67: 1, 99: 1, 71: 2, 103: 2, 84: 3, 116: 3}.get(e.val, 0))
+                else:
+                    self.paths.append(("vector", i))
+                ids.append(i)
             return Tup([Opaque("__m256i", {"conv"}, {"ids": ids}), mkbool(True)])
         if p == "bitops_avx2::pack_32_bases":
             x = args[0]
@@ -174,7 +183,10 @@ class AcgtOracles(Oracles):
                 raise Undecided("pack_32_bases of an unknown vector")
             bits = [ZERO] * 64
             for j, i in enumerate(ids):
-                bits[63 - 2 * j], bits[62 - 2 * j] = var("c", 2 * i + 1), var("c", 2 * i)
+                if isinstance(i, tuple):
+                    bits[63 - 2 * j], bits[62 - 2 * j] = (ONE if i[1] & 2 else ZERO), (ONE if i[1] & 1 else ZERO)
+                else:
+                    bits[63 - 2 * j], bits[62 - 2 * j] = var("c", 2 * i + 1), var("c", 2 * i)
             return Int(64, False, bits=bits)
         return NotImplemented
 
